@@ -376,6 +376,17 @@ def check_eval(case):
         arr = np.array([dec_float(v) for v in vals], dtype=float)
         c.add_variable(name, arr.copy())
         variables[name] = arr
+    by = case.get('bystanders') or []
+    if by:
+        # further series of other dtypes in the same container (not mentioned by the expression): a container holds one
+        # array per variable, each with its own dtype
+        n_ = len(labs)
+        if 'str' in by:
+            c.add_variable('bystander_s', ['s%d' % i for i in range(n_)], dtype=str)
+        if 'int' in by:
+            c.add_variable('bystander_n', [2 ** 53 + 1 + i for i in range(n_)], dtype=int)
+        if 'bool' in by:
+            c.add_variable('bystander_b', [i % 2 == 0 for i in range(n_)], dtype=bool)
     user_locals = None
     if case.get('locals') is not None:
         user_locals = {k: (np.array([dec_float(x) for x in v], dtype=float) if isinstance(v, list) else v)
@@ -539,6 +550,8 @@ def eval_strategy(max_len):
             case['builtins'] = draw(st.sampled_from(['empty', 'swapped', 'shadowed']))
         if user_locals is not None:
             case['rep'] = draw(tapes(1))
+        if draw(st.integers(0, 3)) == 0:
+            case['bystanders'] = draw(st.sampled_from([['str'], ['int'], ['bool'], ['str', 'int', 'bool'], ['int', 'bool']]))
         return case
 
     return cases()
